@@ -261,6 +261,18 @@ def run(ctx):
     check_effect_tables(ctx, "C14")
     check_presence_tests(ctx, "C14.PRESENCE", classes=ARG_SCOPE.get("C14", []))
 
+    # ---------------------------------------------------------------- C14.STATELESS
+    # parse() is a function of its arguments: nothing in the parser module keeps state between calls in a class
+    # object or a module global (token lists are edited in place by _parse - a list handed out twice is edited twice)
+    from ..rules_common import shared_state_writes
+    w = shared_state_writes(prog, "parser._parser")
+    pm = prog.method(prog.cls("parser._parser.parser", "C14.STATELESS").qualname, "parse", "C14.STATELESS")
+    ctx.ob("C14.STATELESS", pm if not w else w[0][0], "no function of the parser module stores into a class object or a module-level container "
+           "(the second parse of a string must see what the first saw)", not w,
+           construct="shared-state writes in dateutil.parser._parser: %d" % len(w),
+           detail="" if not w else "; ".join("%s: %s" % (f.qualname.split("dateutil.")[-1], t) for f, n, t in w[:4]),
+           analysis="who-may-write: stores / mutator calls whose base is a class object or a module-level container")
+
 
 def justify(ctx):
     """Static side conditions behind the CHECKED suppressions."""
